@@ -268,6 +268,13 @@ func deleteConsensusSigns(native *native.NativeService, key common.Uint256) {
 	native.GetCacheDB().Delete(utils.ConcatKey(contract, []byte(CONSENSUS_SIGNS), key.ToArray()))
 }
 
+// ClearConsensusSigns drops the approvals collected so far for (method, input). It is called when the request these
+// approvals were given for is withdrawn or replaced, so that they cannot count for a later, different request.
+func ClearConsensusSigns(native *native.NativeService, method string, input []byte) {
+	message := append([]byte(method), input...)
+	deleteConsensusSigns(native, sha256.Sum256(message))
+}
+
 func CheckConsensusSigns(native *native.NativeService, method string, input []byte, address common.Address) (bool, error) {
 	message := append([]byte(method), input...)
 	key := sha256.Sum256(message)
